@@ -125,10 +125,10 @@ class InstrumentedAsyncServer:
                 authenticated = client_auth in self.auth
             else:
                 try:
-                    if asyncio.iscoroutinefunction(self.auth):
-                        authenticated = await self.auth(client_auth)
-                    else:
-                        authenticated = self.auth(client_auth)
+                    ret = self.auth(client_auth)
+                    if asyncio.iscoroutine(ret):
+                        ret = await ret
+                    authenticated = ret
                 except Exception:
                     # a callable that fails on this payload did not accept it
                     self.sio.logger.exception('Admin authentication error')
